@@ -82,7 +82,8 @@ class C10(Prop):
         a = analyse(case, obs)
         out = obs['outcomes']
         pol = case['policy']
-        seq = a['consumed'] + a['doneq']
+        app = next((sn['appconsumed'] for _, sn in reversed(obs['trace']) if sn is not None), [])
+        seq = app + a['consumed'] + a['doneq']
         if len(set(seq)) != len(seq):
             return f'a member is yielded twice: consumed {a["consumed"]}, queued {a["doneq"]}'
         for _, sn in obs['trace']:
@@ -152,6 +153,8 @@ class C10(Prop):
         h.append('retain' if case.get('retain') else 'no_retain')
         if a['already']:
             h.append('already_finished_member_added')
+        if any(l[0] == 'appnext' for l, _ in obs['trace']):
+            h.append('application_took_members_before_join')
         if obs['completed'] is not None:
             h.append('completed_' + str(obs['outcomes'].get(str(obs['completed']))))
         return h
